@@ -373,6 +373,8 @@ func init() {
 		HarnessSpec{Name: "VerifH_pool_alias", Covers: []string{"two-requests"}})
 	ext("C06", "server-streaming method over plain HTTP through ServeHTTP: 0..2 replies of 0..2 symbolic bytes in length-delimited framing: the response body is exactly the replies in order",
 		HarnessSpec{Name: "VerifH_serveHTTP_serverstream", Covers: []string{"two-replies", "no-reply"}})
+	ext("C09", "one of 14 protocol headers (message / content / accept encodings, grpc-timeout, te, upgrade, connection, WebSocket handshake fields, '-bin' metadata, content-length, twirp-version) set to 0..2 (quick) / 0..3 (thorough) arbitrary bytes on the gRPC, gRPC-web, transcoding and WebSocket-handshake entries, with and without a stats handler: exactly one well-formed response, no crash",
+		HarnessSpec{Name: "VerifH_entry_headers", Covers: []string{"answered"}})
 	wkt := "well-known-type parameters (google.protobuf wrappers, FieldMask, Duration, Timestamp) through the real parseQueryParams / parseParam / quote / params.set: the empty text for each of 10 types, a menu of 40 boundary texts (non-BMP strings, 32/64-bit limits, duration range and Go-style units, leap days, RFC 3339 range), symbolic texts of 1..3 (quick) / 1..4 (thorough) bytes for StringValue, BoolValue, Int32Value / UInt32Value, BytesValue, FieldMask; protojson's scalar forms modelled (model_wkt.go), generated messages seen through a fake reflection view"
 	for _, id := range []string{"C03", "C09", "C01"} {
 		ext(id, wkt, HarnessSpec{Name: "VerifH_params_wkt", Covers: []string{"empty-value", "menu-accepted", "menu-rejected", "string-wrapper", "bool-wrapper", "int-wrapper", "int-wrapper-rejected", "bytes-wrapper", "fieldmask", "fieldmask-rejected"}})
